@@ -857,6 +857,16 @@ class Terminal:
                 self.mbx_in_off, "HHBB", data=self.mbx_in_sz - 6)
         return MBXType(type & 0xf), data[:dlen]
 
+    async def coe_recv(self):
+        """receive the next CoE mail that is not an emergency"""
+        while True:
+            type, data = await self.mbx_recv()
+            if type is MBXType.COE and len(data) >= 2 \
+                    and data[1] >> 4 != CoECmd.EMERGENCY.value:
+                return type, data
+            logging.warning(f"skipped unrelated mail {type}, "
+                            f"for terminal {self.name}")
+
     async def coe_request(self, coecmd, odcmd, *args, **kwargs):
         async with self.mbx_lock:
             await self.mbx_send(MBXType.COE, "HBxH", coecmd.value << 12,
@@ -868,7 +878,7 @@ class Terminal:
             while fragments:
                 type = None
                 while type is not MBXType.COE:
-                    type, data = await self.mbx_recv()
+                    type, data = await self.coe_recv()
                     if type is not MBXType.COE:
                         logging.warning(f"expected CoE package, got {type}, "
                                         f"for terminal {self.name}")
@@ -894,7 +904,7 @@ class Terminal:
                     index, 1 if subindex is None else subindex)
             type = None
             while type is not MBXType.COE:
-                type, data = await self.mbx_recv()
+                type, data = await self.coe_recv()
                 if type is not MBXType.COE:
                     logging.warning(f"expected CoE package, got {type}, "
                                     f"for terminal {self.name}")
@@ -918,7 +928,7 @@ class Terminal:
                         MBXType.COE, "HBHB4x", CoECmd.SDOREQ.value << 12,
                         ODCmd.SEG_UP_REQ.value + toggle, index,
                         1 if subindex is None else subindex)
-                type, data = await self.mbx_recv()
+                type, data = await self.coe_recv()
                 if type is not MBXType.COE:
                     raise EtherCatError(f"expected CoE, got {type}")
                 coecmd, sdocmd = unpack("<HB", data[:3])
@@ -956,7 +966,7 @@ class Terminal:
                         MBXType.COE, "HBHB4s", CoECmd.SDOREQ.value << 12,
                         ODCmd.DOWN_EXP.value | (((4 - len(data)) << 2) & 0xc),
                         index, subindex, data)
-                type, data = await self.mbx_recv()
+                type, data = await self.coe_recv()
             if type is not MBXType.COE:
                 raise EtherCatError(f"expected CoE, got {type}, {data} "
                                     f"{odata} {index:x}:{subindex:x}")
@@ -976,7 +986,7 @@ class Terminal:
                         else ODCmd.DOWN_INIT.value,
                         index, 1 if subindex is None else subindex,
                         len(data), data=data[:stop])
-                type, rdata = await self.mbx_recv()
+                type, rdata = await self.coe_recv()
                 if type is not MBXType.COE:
                     raise EtherCatError(f"expected CoE, got {type}")
                 coecmd, sdocmd, idx, subidx = unpack("<HBHB", rdata[:6])
@@ -997,7 +1007,7 @@ class Terminal:
                     await self.mbx_send(
                             MBXType.COE, "HB", CoECmd.SDOREQ.value << 12,
                             cmd + toggle, data=d)
-                    type, rdata = await self.mbx_recv()
+                    type, rdata = await self.coe_recv()
                     if type is not MBXType.COE:
                         raise EtherCatError(f"expected CoE, got {type}")
                     coecmd, sdocmd = unpack("<HB", rdata[:3])
